@@ -314,6 +314,9 @@ def _specific_yield(ctx, chk, rprog):
         chk.indeterminate("C16.O2", where_of(cls_f, cls_f.node), "expected one loop over levels with one loop over cells inside")
         return
     outer, inner = outer[0], inner[0]
+    if not (isinstance(outer.target, ast.Name) and isinstance(inner.target, ast.Name)):
+        chk.indeterminate("C16.O2", where_of(cls_f, outer), "the level / cell loops do not run over plain index variables")
+        return
     iv, jv = outer.target.id, inner.target.id
     st = PyTerms(sflow, mod, array_names={zl_n, zu_n}, keep={zl_n, zu_n, iv, jv})
     # accumulation statement inside the inner loop
